@@ -2059,6 +2059,13 @@ class PseudoNetCDFFile(PseudoNetCDFSelfReg, object):
             sliceo = tuple(dimslices.get(dk, slice(None)) for dk in vdims)
             isdarray = [isarray.get(dk, False) for dk in vdims]
             needsfancy = sum(isdarray) > 1
+            if sum(isdarray) == 1:
+                # an integer next to an index list is also an advanced index
+                # for numpy and may move the list axis to the front; a unit
+                # slice selects the same element and keeps the axes in place
+                sliceo = tuple(
+                    slice(si, (si + 1) or None) if np.isscalar(si) else si
+                    for si in sliceo)
             if anyisarray and needsfancy:
                 concatax = np.argmax(isdarray)
                 odims = [dk for dk in vdims if not isarray.get(dk, False)]
